@@ -51,6 +51,7 @@ ASSUMPTIONS = [
     "underflows to 0.0 at phi = 1 is within 2^-1074 of its exact value)",
 ]
 TRUSTED = ["float -> exact rational via Fraction(float) (exact); tolerance 1e-9 of harness/core.close and of the checker"]
+PARTIAL = ['convergence of the iteration to THE fixed point (second conjunct of C17_full) is not proved; the code returns the T-th Gauss-Seidel iterate from 0.5 and that iterate is what is characterised', 'C17_formula_partial (1 - vertex average of products) holds by definition of the model; the model and the specification share the sweep bookkeeping, so "model = specification" reduces to the C15 identity; the bookkeeping itself is tied to the code only by the correspondence and by C17_others_semantic under cover_okb']
 TECHNIQUE = ("Coq: simulation lemma over the Gauss-Seidel sweeps (model/spec, cached/fresh evaluator, reduced/plain "
              "arithmetic), invariants for the bounds and phi = 0, on top of the C15 cache invariant; verified checker "
              "on the implementation's floats; model/implementation correspondence with logged sweep order")
